@@ -218,8 +218,12 @@ Fixpoint racy_progs (ps : list (list op)) : bool :=
   end.
 Definition racy (cf : config) : bool := racy_progs (cfg_progs cf).
 
+(* without the busy guard the racy configurations only satisfy the statement outside K; with it everything is strict *)
 Definition conf_pred (fl : flags) (cf : config) : gstate -> bool :=
-  if racy cf then state_ok fl cf else state_ok_strict fl cf.
+  if racy cf && negb (fl_busy_guard fl) then state_ok fl cf else state_ok_strict fl cf.
+
+(* the code before the repair (update_file / unload_file without the busy guard) *)
+Definition old_flags : flags := mkFlags false true false true false true true true false.
 
 Definition check_universe (fl : flags) (U : list config) (fuel : nat) : bool :=
   forallb (fun cf => check_conf fl cf (conf_pred fl cf) fuel) U.
